@@ -992,16 +992,6 @@ async fn scenario(mon: &Monitor, rng: &mut Rng, idx: u64) {
             }
         }
     }
-    // one scenario per shard (a few in the thorough tier) ends with peers whose last accepted entries
-    // carry stamps just inside the accepted age, persisted, and reloaded once those stamps are older
-    // than the age limit
-    if !mon.time_up() && !long && (idx == 1 || (!mon.quick() && idx % 40 == 1)) {
-        w.aged_stamp = Some(3597);
-        op_batch(mon, rng, &mut w, true).await;
-        op_batch(mon, rng, &mut w, true).await;
-        w.aged_stamp = None;
-        op_reload(mon, rng, &mut w, 0, true).await;
-    }
     // always end with one reload so that long histories are covered too
     if !mon.time_up() {
         op_reload(mon, rng, &mut w, 3, false).await;
@@ -1014,6 +1004,51 @@ async fn scenario(mon: &Monitor, rng: &mut Rng, idx: u64) {
     }
     mon.count("stores", 1);
     mon.count("submissions.total", w.subs);
+}
+
+/// Peers whose WHOLE accepted history carries stamps just inside the accepted age (3597 s old when
+/// accepted). A few seconds later those entries are older than the one-hour limit: they may be
+/// trimmed from the history and the peer's last activity is "old" - but every number that was
+/// accepted stays refused, in this process (after `cleanup_old_sequences`) and after a reload.
+async fn aged_scenario(mon: &Monitor, rng: &mut Rng) {
+    let npeers = rng.urange(1, 4);
+    let mut w = match new_world(rng, npeers).await {
+        Ok(w) => w,
+        Err(e) => {
+            mon.inconclusive(&format!("cannot create store: {e}"));
+            return;
+        }
+    };
+    w.aged_stamp = Some(3597);
+    for _ in 0..rng.urange(2, 5) {
+        op_batch(mon, rng, &mut w, true).await;
+    }
+    w.aged_stamp = None;
+    mon.count("aged.worlds", 1);
+    if rng.chance(0.5) {
+        // persisted, aged, reloaded
+        op_reload(mon, rng, &mut w, 0, true).await;
+    } else {
+        tokio::time::sleep(Duration::from_millis(4200)).await;
+        if let Err(e) = w.sys.cleanup_old_sequences().await {
+            mon.violation("api-error/cleanup_old_sequences", json!({"err": e.to_string()}));
+        }
+        w.note("aged 4.2 s past the limit; cleanup_old_sequences".into());
+        mon.count("aged.cleanup-after-stamps-aged-past-one-hour", 1);
+    }
+    // replays, gaps and next numbers on the trimmed peers, through both APIs
+    for _ in 0..rng.urange(6, 16) {
+        if rng.chance(0.6) {
+            op_batch(mon, rng, &mut w, true).await;
+        } else {
+            op_single(mon, rng, &mut w, true).await;
+        }
+    }
+    op_reload(mon, rng, &mut w, 2, false).await;
+    if let Some(s) = Arc::get_mut(&mut w.sys) {
+        s.stop_sync_task().await;
+    }
+    mon.count("stores", 1);
 }
 
 /// Tightly aligned submitters: OS threads released by a spinning rendezvous all submit the same
@@ -1039,14 +1074,22 @@ fn spin_races(mon: &Monitor, seed: u64) {
     let gen = Arc::new(AtomicUsize::new(0));
     let arrived = Arc::new(AtomicUsize::new(0));
     let wins: Arc<Vec<AtomicUsize>> = Arc::new((0..rounds as usize + 3).map(|_| AtomicUsize::new(0)).collect());
-    let stop_at = rounds as usize;
+    // the lane is sized in rounds but capped in wall time: on a loaded machine a spinning rendezvous of
+    // 8 threads can take minutes. The thread that opens a round shortens the run once the cap is spent.
+    let limit = Arc::new(AtomicUsize::new(rounds as usize));
+    let cap = Duration::from_secs(mon.by_tier(12u64, 150));
+    let t_start = std::time::Instant::now();
     let mut hs = Vec::new();
     for t in 0..threads {
-        let (sys, peer, gen, arrived, wins) = (sys.clone(), peer.clone(), gen.clone(), arrived.clone(), wins.clone());
+        let (sys, peer, gen, arrived, wins, limit) = (sys.clone(), peer.clone(), gen.clone(), arrived.clone(), wins.clone(), limit.clone());
         hs.push(std::thread::spawn(move || {
-            for r in 0..stop_at {
+            let mut r = 0usize;
+            while r < limit.load(Ordering::Acquire) {
                 // rendezvous: the last arriver opens the round, everybody else spins
                 if arrived.fetch_add(1, Ordering::AcqRel) + 1 == threads * (r + 1) {
+                    if t_start.elapsed() > cap {
+                        limit.store(r + 1, Ordering::Release);
+                    }
                     gen.store(r + 1, Ordering::Release);
                 } else {
                     while gen.load(Ordering::Acquire) < r + 1 {
@@ -1061,11 +1104,16 @@ fn spin_races(mon: &Monitor, seed: u64) {
                 if matches!(res, Ok(Res::Valid)) {
                     wins[r].fetch_add(1, Ordering::Relaxed);
                 }
+                r += 1;
             }
         }));
     }
     for h in hs {
         let _ = h.join();
+    }
+    let stop_at = limit.load(Ordering::Acquire);
+    if stop_at < rounds as usize {
+        mon.count("spin.stopped-by-time-cap", 1);
     }
     let mut multi = 0u64;
     let mut none = 0u64;
@@ -1114,6 +1162,10 @@ fn main() {
                     break;
                 }
                 scenario(&mon, &mut rng, k).await;
+                // one aged world per shard in the quick tier, one every 40 scenarios in the thorough tier
+                if k == 1 || (!mon.quick() && k % 40 == 1) {
+                    aged_scenario(&mon, &mut rng).await;
+                }
             }
         });
     });
